@@ -285,19 +285,20 @@ func Supported(f []byte) bool {
 
 // Classify: supported as above, plus whether running the REAL parser on `f`
 // in-process is risky: a length field on the walked path asks for a buffer of
-// more than 256 MiB (Go's make() of an absurd size is a fatal, unrecoverable
-// "out of memory"), or the walk left the modelled grammar and a 64-bit length
-// marker follows somewhere.
+// more than 4 GiB, i.e. a 64-bit length form (Go's make() of an absurd size is a
+// fatal, unrecoverable "out of memory"; up to 4 GiB the untouched allocation is
+// harmless), or the walk left the modelled grammar and a 64-bit length marker
+// follows somewhere.
 func Classify(f []byte) (supported bool, risky bool) {
 	w := &walker{b: f}
 	supported = w.run()
-	risky = w.maxAlloc > 256<<20
+	risky = w.maxAlloc > 1<<32
 	if !supported {
 		from := w.pos
 		if from > len(f) {
 			from = len(f)
 		}
-		if bytes.IndexByte(f[from:], 0x81) >= 0 || bytes.IndexByte(f[from:], 0x80) >= 0 {
+		if bytes.IndexByte(f[from:], 0x81) >= 0 {
 			risky = true
 		}
 	}
